@@ -10,11 +10,15 @@
 #include <fcppt/config/external_begin.hpp>
 #include <cstdint>
 #include <filesystem>
+#include <system_error>
 #include <fcppt/config/external_end.hpp>
 
 fcppt::filesystem::optional_size fcppt::filesystem::file_size(std::filesystem::path const &_path)
 {
-  std::uintmax_t const size{std::filesystem::file_size(_path)};
+  // Use the non-throwing overload: only that one reports failure by returning -1.
+  std::error_code error{};
+
+  std::uintmax_t const size{std::filesystem::file_size(_path, error)};
 
   return fcppt::optional::make_if(size != static_cast<std::uintmax_t>(-1), fcppt::const_(size));
 }
